@@ -6,7 +6,8 @@ Semantic form (small JSON):
   {'nc', 'ns', 'nt', 'templates': [nt][ns][n_loc] ints (NumPy layout), 'cols': None | [nt][n_loc] ints,
    'wmi': None | [nc][nc] ints, 'wfiles': 'none'|'wmi'|'wm'|'both', 'positions': [nc][2] ints,
    'shanks': None | [nc] ints, 'nclosest': int, 'thr': [p, q], 'tmpl_dtype': 'float32'|'float64',
-   'cols_dtype': 'int32'|'int64', 'st': [n_spikes] template ids, 'sc': None | [n_spikes] cluster ids}"""
+   'cols_dtype': 'int32'|'int64', 'st': [n_spikes] template ids, 'sc': None | [n_spikes] cluster ids,
+   'scale': None | int (template_scaling keyword of TemplateModel; None = attribute absent)}"""
 from fractions import Fraction
 
 
@@ -136,5 +137,5 @@ def coq_dataset(sem):
     cols = 'None' if sem.get('cols') is None else '(Some %s)' % zll(sem['cols'])
     pos = '[' + '; '.join('mkpos %s %s' % (z(p[0]), z(p[1])) for p in sem['positions']) + ']'
     shanks = sem['shanks'] if sem.get('shanks') is not None else [0] * sem['nc']
-    return '(mkds %s %s %s %s %s %s %s)' % (tpl, cols, zll(effective_wmi(sem)), pos, zl(shanks),
+    return '(mkds %s %s %s %s %s %s %s %s)' % (tpl, cols, zll(effective_wmi(sem)), z(sem.get('scale') or 1), pos, zl(shanks),
                                             z(sem['nclosest']), coq_thr(sem['thr']))
